@@ -3,6 +3,7 @@
 //! flavour: local | sync | shared
 mod core;
 mod event;
+mod mutex;
 
 use crate::core::*;
 use std::io::{BufRead, Write};
@@ -17,6 +18,8 @@ fn make(prim: &str, flavour: &str, cfg: &[u64]) -> Option<Box<dyn Exec>> {
     Some(match (prim, flavour) {
         ("event", "local") => Box::new(event::EventExec::<Local>::new(cfg)),
         ("event", "sync") => Box::new(event::EventExec::<Sync>::new(cfg)),
+        ("mutex", "local") => Box::new(mutex::MutexExec::<Local>::new(cfg)),
+        ("mutex", "sync") => Box::new(mutex::MutexExec::<Sync>::new(cfg)),
         _ => return None,
     })
 }
